@@ -148,7 +148,9 @@ AttEnd(g) ==
                /\ IF temps # <<>>
                   THEN gs' = Upd(g, [g EXCEPT !.k = "retry", !.pc = "inline", !.dlv = dl, !.tmp = temps])
                   ELSE gs' = Upd(g, [g EXCEPT !.k = "rmdirect", !.pc = "start"])
-               /\ cur' = g.id            \* no yield before the first storage call
+               \* no yield before the first storage call - which, on a yielding backend, may wait before it takes effect as
+               \* well as after (found by validating real executions against this model: spec/Trace_QueueCore.tla)
+               /\ cur' = Keep(g, StoreYields)
                /\ UNCHANGED <<active, qids, nextg>>
   /\ UNCHANGED <<now, store, queued, accepted, viol, due, flushed, nflush, nann, nload, toenq>>
 
@@ -171,17 +173,21 @@ RetryStep(g) ==
                 /\ failed' = [failed EXCEPT ![g.m] = @ \cup Range(g.tmp)]
                 /\ bounced' = [bounced EXCEPT ![g.m] = @ \cup {Range(g.tmp)}]
                 /\ gs' = Upd(g, [g EXCEPT !.k = "rmdirect", !.pc = "giveup"])
-                /\ cur' = g.id
-                /\ UNCHANGED <<store, queued, qids, active, due, nextg>>
-           ELSE \* set_timestamp
-                /\ store[g.m].present
-                /\ store' = [store EXCEPT ![g.m].ts = now + Wait(g.att)]
-                /\ due' = [due EXCEPT ![g.m] = now + Wait(g.att)]
-                /\ gs' = Upd(g, [g EXCEPT !.when = now + Wait(g.att),
-                                          !.pc = IF g.pc = "incd" THEN "requeue"
-                                                 ELSE IF KF_RequeueEarly THEN "requeue_then_mark" ELSE "mark"])
                 /\ cur' = Keep(g, StoreYields)
-                /\ UNCHANGED <<queued, qids, active, failed, bounced, settled, nextg>>
+                /\ UNCHANGED <<store, queued, qids, active, due, nextg>>
+           ELSE \* the retry time is fixed now; the storage call that records it may take its time on a yielding backend
+                \* (found by validating real executions against this model: the clock can advance in between)
+                /\ gs' = Upd(g, [g EXCEPT !.when = now + Wait(g.att), !.pc = IF g.pc = "incd" THEN "setts" ELSE "setts_i"])
+                /\ cur' = Keep(g, StoreYields)
+                /\ UNCHANGED <<store, queued, qids, active, failed, bounced, settled, due, nextg>>
+     \/ /\ g.pc \in {"setts", "setts_i"}         \* set_timestamp
+        /\ store[g.m].present
+        /\ store' = [store EXCEPT ![g.m].ts = g.when]
+        /\ due' = [due EXCEPT ![g.m] = g.when]
+        /\ gs' = Upd(g, [g EXCEPT !.pc = IF g.pc = "setts" THEN "requeue"
+                                        ELSE IF KF_RequeueEarly THEN "requeue_then_mark" ELSE "mark"])
+        /\ cur' = Keep(g, StoreYields)
+        /\ UNCHANGED <<queued, qids, active, failed, bounced, settled, nextg>>
      \/ /\ g.pc = "requeue"                      \* spawned retry: re-queue, done
         /\ Requeue(g, g.when) /\ gs' = gs \ {g} /\ cur' = 0
         /\ UNCHANGED <<store, failed, bounced, settled, due, nextg>>
